@@ -418,6 +418,7 @@ theorem step_fit (hs : SlashCodeOk) (hg : GuardCodeOk) (s : State) (op : Op) (hi
   | withdraw o => exact withdraw_fit s o hi
   | fund o amt => exact fit_same s _ hi rfl rfl rfl
   | mint o amt => exact fit_same s _ hi rfl rfl rfl
+  | tick dt => exact fit_same s _ hi rfl rfl rfl
   | unbond o => exact unbond_fit s o hi
   | mkbatch => simp only [step, mkBatch]; split <;> first | exact hi | exact fit_same s _ hi rfl rfl rfl
   | mkcall => exact fit_same s _ hi rfl rfl rfl
@@ -561,6 +562,7 @@ theorem step_params (hcode : SlashCodeOk) (s : State) (op : Op) : (step s op).1.
                   all_goals rfl
   | fund o amt => rfl
   | mint o amt => rfl
+  | tick dt => rfl
   | unbond o => simp only [step, unbond]; repeat' split
                 all_goals rfl
   | mkbatch => simp only [step, mkBatch]; repeat' split
